@@ -110,7 +110,7 @@ func corpus() []corpusCase {
 			dyn("c", "o_mix", "each", []string{"«each».key"}, at("p", "«each».value"))}},
 	}
 	// appended last so that the indices of the cases above stay what they were
-	return append(cs, collideCorpus()...)
+	return append(append(cs, collideCorpus()...), partialCorpus()...)
 }
 
 // ---- one case ---------------------------------------------------------------------------------------------
@@ -143,6 +143,9 @@ func caseFor(seed uint64, corp bool, idx int) *genCase {
 		for k, v := range collideCorpusVars(cc.Name) {
 			full[k] = v
 		}
+		for k, v := range partialCorpusVars(cc.Name) {
+			full[k] = v
+		}
 		ectx = &hcl.EvalContext{Variables: full, Functions: hv.HarnessFuncs}
 		return &genCase{Spec: cc.Spec, Items: cc.Items, ECtx: ectx, DCtx: ectx, Feat: map[string]int{"corpus": 1}, Note: cc.Name}
 	}
@@ -150,6 +153,10 @@ func caseFor(seed uint64, corp bool, idx int) *genCase {
 	// cases of the general stream are what they were before it existed
 	if rc := hv.NewRng(seed, uint64(190000+idx)); rc.Chance(0.10) {
 		return generateCollide(rc)
+	}
+	// the partially-unknown-for_each stream (partial.go), likewise
+	if rp := hv.NewRng(seed, uint64(200000+idx)); rp.Chance(0.10) {
+		return generatePartial(rp)
 	}
 	return generate(r)
 }
@@ -247,7 +254,7 @@ func (rn *runner) one(seed uint64, corp bool, idx int) {
 
 func run(cfg *hv.RunCfg) error {
 	rep := hv.NewReport("C18", cfg.Seed)
-	rep.Rule = "per case: a hcldec specification tree (1-3 levels; BlockList/Set/Map/Single/Tuple/Object/Attrs kinds, 0-2 labels), an expansion context with list/set/map/object/tuple collections of sizes 0-3 incl. nested ones, unknown, marked, null and non-iterable values (1-2 frames), a decoding context (same / child / separate), and a body mixing static and dynamic blocks (nesting 1-3, default and custom iterators incl. shadowing, labels computed from the iterator, content referring to outer iterators, static blocks inside content); 10% structurally mutated (malformed dynamic blocks, unrequested types); non-trivial = the body contains a dynamic block; distinct by SHA-256 of (text, contexts)"
+	rep.Rule = "per case: a hcldec specification tree (1-3 levels; BlockList/Set/Map/Single/Tuple/Object/Attrs kinds, 0-2 labels), an expansion context with list/set/map/object/tuple collections of sizes 0-3 incl. nested ones, unknown, marked, null and non-iterable values (1-2 frames), a decoding context (same / child / separate), and a body mixing static and dynamic blocks (nesting 1-3, default and custom iterators incl. shadowing, labels computed from the iterator, content referring to outer iterators, static blocks inside content); 10% structurally mutated (malformed dynamic blocks, unrequested types); 10% of the cases from the partially-unknown-for_each stream (known list/tuple/set/map/object collections of primitives, objects and lists with unknown, refined-unknown or marked-unknown values at different depths, also marked as a whole or known by a length refinement, next to wholly unknown refined ones; used in labels, attributes and nested for_each); non-trivial = the body contains a dynamic block; distinct by SHA-256 of (text, contexts)"
 	cf := &hv.CaseFile{Dir: cfg.Out, Name: "c18cases",
 		Imports: "From Coq Require Import QArith String.\nFrom HclV Require Import Base.Prelude Cty.Values Cty.Convert Cty.Ops Eval.Impl Eval.Funcs Dyn.Expand Dyn.Unroll Dyn.ExpandCheck.",
 		Ctype:   "xcase", Checker: "check_expand_cases",
